@@ -8,6 +8,7 @@
 
 use crate::util::*;
 use crate::with_d;
+use easy_ml::matrices::slices::{Slice, Slice2D};
 use easy_ml::matrices::Matrix;
 use easy_ml::tensors::indexing::{
     TensorAccess, TensorIterator, TensorOwnedIterator, TensorReferenceIterator, TensorReferenceMutIterator,
@@ -571,13 +572,92 @@ fn get<const D: usize>(t: &mut Tensor<u64, D>, toks: &[&str]) -> String {
     }
 }
 
+// ---------------------------------------------------------------------------------------------
+// a matrix that is resized with invalid arguments and then used again (no guard: the walk over
+// the survivor goes straight to the unchecked accessors, under the monitor)
+// ---------------------------------------------------------------------------------------------
+
+fn parse_simple_slice(s: &str) -> Slice {
+    let (name, args) = match s.find('(') {
+        Some(p) => (&s[..p], &s[p + 1..s.len() - 1]),
+        None => (s, ""),
+    };
+    // split at top-level commas
+    let mut parts: Vec<&str> = vec![];
+    let (mut depth, mut start) = (0i32, 0usize);
+    for (i, ch) in args.char_indices() {
+        match ch {
+            '(' => depth += 1,
+            ')' => depth -= 1,
+            ',' if depth == 0 => {
+                parts.push(&args[start..i]);
+                start = i + 1;
+            }
+            _ => {}
+        }
+    }
+    if !args.is_empty() {
+        parts.push(&args[start..]);
+    }
+    match (name, parts.len()) {
+        ("all", 0) => Slice::All(),
+        ("none", 0) => Slice::None(),
+        ("single", 1) => Slice::Single(parts[0].parse().expect("single")),
+        ("range", 2) => Slice::Range(parts[0].parse().expect("range")..parts[1].parse().expect("range")),
+        ("not", 1) => parse_simple_slice(parts[0]).not(),
+        ("and", 2) => parse_simple_slice(parts[0]).and(parse_simple_slice(parts[1])),
+        ("or", 2) => parse_simple_slice(parts[0]).or(parse_simple_slice(parts[1])),
+        _ => panic!("bad slice {}", s),
+    }
+}
+
+fn matrix_op(m: &mut Matrix<u64>, toks: &[&str]) -> Result<(), PanicKind> {
+    let n = |i: usize| -> usize { toks[i].parse().expect("index") };
+    let vals = |i: usize| -> Vec<u64> { split_comma(toks[i]).iter().map(|t| t.parse().expect("value")).collect() };
+    match toks[0] {
+        "insert_row" => catch(|| m.insert_row(n(1), toks[2].parse().unwrap())),
+        "insert_column" => catch(|| m.insert_column(n(1), toks[2].parse().unwrap())),
+        "insert_row_with" => {
+            let vs = vals(2);
+            catch(|| m.insert_row_with(n(1), vs.into_iter()))
+        }
+        "insert_column_with" => {
+            let vs = vals(2);
+            catch(|| m.insert_column_with(n(1), vs.into_iter()))
+        }
+        "remove_row" => catch(|| m.remove_row(n(1))),
+        "remove_column" => catch(|| m.remove_column(n(1))),
+        "retain_mut" => {
+            let rows = parse_simple_slice(opt_arg("rows", toks).expect("rows="));
+            let cols = parse_simple_slice(opt_arg("cols", toks).expect("cols="));
+            catch(|| m.retain_mut(Slice2D::new().rows(rows).columns(cols)))
+        }
+        "transpose_mut" => catch(|| m.transpose_mut()),
+        _ => panic!("unknown matrix operation {}", toks[0]),
+    }
+}
+
+/// size, stored element count and a bounded walk over the elements in both orders
+fn show_matrix_state(m: &Matrix<u64>) -> String {
+    let (rows, cols) = m.size();
+    let len = matrix_len(m);
+    let limit = len.saturating_add(2).min(1 << 20);
+    let used = match catch(|| (m.row_major_iter().take(limit).count(), m.column_major_iter().take(limit).count())) {
+        Ok((a, b)) if a == b => a.to_string(),
+        Ok((a, b)) => format!("{}/{}", a, b),
+        Err(k) => panic_str(k),
+    };
+    format!("{}x{} len={} use={}", rows, cols, len, used)
+}
+
 pub struct Runner {
     t: Option<AnyT>,
+    m: Option<Matrix<u64>>,
 }
 
 impl Runner {
     pub fn new() -> Runner {
-        Runner { t: None }
+        Runner { t: None, m: None }
     }
 
     fn state(&mut self, flavour: &str) -> String {
@@ -591,12 +671,33 @@ impl Runner {
         let mut toks = toks;
         if toks.first() == Some(&"@") {
             self.t = None;
+            self.m = None;
             toks = &toks[1..];
         }
         let read = opt_arg("read", toks).unwrap_or("copy");
         match toks[0] {
             "mlog" => {
                 return log_matrix(toks[1].parse().unwrap(), toks[2].parse().unwrap(), toks[3], toks[4]);
+            }
+            "mnew" => {
+                let (r, c) = toks[1].split_once('x').expect("RxC");
+                let (r, c): (usize, usize) = (r.parse().unwrap(), c.parse().unwrap());
+                return match catch(|| Matrix::from_flat_row_major((r, c), (1..=(r * c) as u64).collect())) {
+                    Ok(m) => {
+                        let s = format!("ok {}", show_matrix_state(&m));
+                        self.m = Some(m);
+                        s
+                    }
+                    Err(k) => format!("panic ## kind={}", k.as_str()),
+                };
+            }
+            "m" => {
+                let m = match &mut self.m {
+                    None => return "no-matrix".into(),
+                    Some(m) => m,
+                };
+                let r = matrix_op(m, &toks[1..]);
+                return format!("{} {}{}", out_str(&r), show_matrix_state(m), kind_str(&r));
             }
             "mflat" => {
                 let (r, c, n): (usize, usize, u64) =
@@ -1147,6 +1248,64 @@ pub fn gen(g: &mut Gen) {
                 }
                 g.count("mlog.diagonal");
                 g.op(format!("@ mlog {} {} diagonal {}", rows, cols, f));
+            }
+        }
+    }
+    // G. matrices resized with invalid arguments, then walked (the survivor is used unguarded)
+    let cases = if thorough { 400 } else { 60 };
+    for _ in 0..cases {
+        let (mut r, mut c) = (g.rng.range(1, 3), g.rng.range(1, 3));
+        g.count("case.matrix-survivor");
+        g.op(format!("@ mnew {}x{}", r, c));
+        let len = g.rng.range(2, 6);
+        for _ in 0..len {
+            let invalid = g.rng.chance(1, 2);
+            let which = g.rng.below(7);
+            let name = ["insert_row", "insert_row_with", "insert_column", "insert_column_with", "remove_row",
+                "remove_column", "retain_mut"][which];
+            g.count(&format!("mop.{}.{}", name, if invalid { "invalid" } else { "valid" }));
+            match which {
+                0 | 2 => {
+                    let max = if which == 0 { r } else { c };
+                    let p = if invalid { max + 1 + g.rng.below(2) } else { g.rng.below(max + 1) };
+                    g.op(format!("m {} {} 77", name, p));
+                    if !invalid {
+                        if which == 0 { r += 1 } else { c += 1 }
+                    }
+                }
+                1 | 3 => {
+                    let (max, need) = if which == 1 { (r, c) } else { (c, r) };
+                    let p = g.rng.below(max + 1);
+                    let k = if invalid { g.rng.below(need) } else { need + g.rng.below(2) };
+                    let vs: Vec<String> = (0..k).map(|i| (900 + i).to_string()).collect();
+                    g.op(format!("m {} {} {}", name, p, if vs.is_empty() { "-".to_string() } else { vs.join(",") }));
+                    if !invalid {
+                        if which == 1 { r += 1 } else { c += 1 }
+                    }
+                }
+                4 | 5 => {
+                    let max = if which == 4 { r } else { c };
+                    let p = if invalid { max + g.rng.below(3) } else { g.rng.below(max) };
+                    g.op(format!("m {} {}", name, p));
+                    if !invalid && max > 1 {
+                        if which == 4 { r -= 1 } else { c -= 1 }
+                    }
+                }
+                _ => {
+                    // retain_mut: an emptying retention panics; otherwise keep a prefix of the rows
+                    if invalid {
+                        let e = *g.rng.pick(&["none", "range(7,9)", "not(all)", "and(single(0),single(1))"]);
+                        if g.rng.chance(1, 2) {
+                            g.op(format!("m retain_mut rows={} cols=all", e));
+                        } else {
+                            g.op(format!("m retain_mut rows=all cols={}", e));
+                        }
+                    } else {
+                        let keep = g.rng.range(1, r);
+                        g.op(format!("m retain_mut rows=range(0,{}) cols=all", keep));
+                        r = keep;
+                    }
+                }
             }
         }
     }
